@@ -14,6 +14,8 @@
 //!   boundaries of the text; a rendering (`{}`, `{:?}`, with_path, renamed_rules) that panics; docs::consume panicking
 //!   on an accepted grammar; an empty error list.
 //! Final line: #SUMMARY evaluations=.. distinct_nontrivial=.. and per-class / per-kind counters.
+//! Mode `cyc`: grammars around one cycle of rule references (see `cyc_grammar`).  Mode `escalate <file>`: the search that the driver
+//! starts from texts on which implementation and model disagree (see `escalate_one`); same output lines, same oracle.
 use pest::error::{Error, ErrorVariant, InputLocation};
 use pest_meta::parser::{self, Rule};
 use pvharness::gram::{gen_grammar, pest_grammar, GenCfg};
@@ -185,7 +187,7 @@ fn has_huge_count(t: &str) -> bool {
 
 impl<W: Write> Out<W> {
     fn run(&mut self, kind: &str, text: &str) -> String {
-        if matches!(kind, "mut" | "dmg" | "gend" | "rnd" | "pre" | "gen") && has_huge_count(text) {
+        if matches!(kind, "mut" | "dmg" | "gend" | "rnd" | "pre" | "gen" | "esc-mut") && has_huge_count(text) {
             *self.counts.entry("skipped_huge_count".to_string()).or_insert(0) += 1;
             return "skipped".to_string();
         }
@@ -280,7 +282,7 @@ const POOL: [&str; 64] = [
 fn pk<'a>(r: &mut Rng, xs: &[&'a str]) -> &'a str { xs[r.below(xs.len() as u64) as usize] }
 fn is_blank(t: &str) -> bool { t.bytes().all(|c| c == b' ' || c == b'\t' || c == b'\n' || c == b'\r') }
 
-fn mutants<W: Write>(out: &mut Out<W>, text: &str, rng: &mut Rng, count: u64, all: bool) {
+fn mutants<W: Write>(out: &mut Out<W>, kind: &str, text: &str, rng: &mut Rng, count: u64, all: bool) {
     let toks = lex(text);
     let idx: Vec<usize> = (0..toks.len()).filter(|&i| !is_blank(toks[i])).collect();
     if idx.is_empty() { return; }
@@ -291,10 +293,10 @@ fn mutants<W: Write>(out: &mut Out<W>, text: &str, rng: &mut Rng, count: u64, al
     };
     if all {
         for &i in &idx {
-            out.run("mut", &build(i, &[]));
-            out.run("mut", &build(i, &[toks[i], toks[i]]));
+            out.run(kind, &build(i, &[]));
+            out.run(kind, &build(i, &[toks[i], toks[i]]));
             let p = pk(rng, &POOL);
-            out.run("mut", &build(i, &[p]));
+            out.run(kind, &build(i, &[p]));
         }
     } else {
         for _ in 0..count {
@@ -306,7 +308,7 @@ fn mutants<W: Write>(out: &mut Out<W>, text: &str, rng: &mut Rng, count: u64, al
                 3 => build(i, &[toks[i], pk(rng, &POOL)]),
                 _ => build(i, &[pk(rng, &POOL)]),
             };
-            out.run("mut", &s);
+            out.run(kind, &s);
         }
     }
 }
@@ -540,6 +542,277 @@ fn scale<W: Write>(out: &mut Out<W>, sizes: &[usize]) {
     }
 }
 
+// ------------------------------------------------------------------------------------------------
+// rule-reference cycles: what the later stages (skipper inlining, unroller) take for granted once the validator is through
+// ------------------------------------------------------------------------------------------------
+/// names whose sorted order differs from every order of appearance (digits < upper case < `_` < lower case)
+const CYC_NAMES: [&str; 20] = ["a", "b", "c", "d", "e", "m", "n", "x", "y", "z", "A", "B", "Z", "_a", "_z", "a1", "r2", "zz", "M0", "b_"];
+/// expressions that match without consuming input (a sequence continues at the same position after them)
+const NULLABLE: [&str; 10] = ["\"\"", "\"t\"?", "\"t\"*", "!\"t\"", "&\"t\"", "SOI", "(\"t\" | \"\")", "\"t\"{,2}", "PUSH(\"\")", "(!\"t\")+"];
+
+/// `x` in a position that the validator's left-recursion walk enters (one clause per operator of check_expr)
+fn first_pos(r: &mut Rng, x: &str, extras: bool) -> String {
+    match r.weighted(&[8, 6, 6, 5, 5, 2, 2, 2, 2, 2, 2, 1, 1, 1, 1, 2, if extras { 3 } else { 0 }]) {
+        0 => x.to_string(),
+        1 => format!("{} ~ \"t\"", x),
+        2 => format!("{} ~ {}", pk(r, &NULLABLE), x),
+        3 => format!("{} | \"t\"", x),
+        4 => format!("\"t\" | {}", x),
+        5 => format!("{}*", x),
+        6 => format!("{}+", x),
+        7 => format!("{}?", x),
+        8 => format!("&{}", x),
+        9 => format!("!{}", x),
+        10 => format!("PUSH({})", x),
+        11 => format!("{}{{2}}", x),
+        12 => format!("{}{{1,}}", x),
+        13 => format!("{}{{,2}}", x),
+        14 => format!("{}{{1,2}}", x),
+        15 => format!("\"u\" | {} ~ {} | \"t\"", pk(r, &NULLABLE), x),
+        _ => format!("#t = {}", x),
+    }
+}
+
+fn shuffle<T>(r: &mut Rng, v: &mut Vec<T>) { for i in (1..v.len()).rev() { let j = r.below(i as u64 + 1) as usize; v.swap(i, j); } }
+
+/// a small grammar around one cycle of rule references: direct or indirect (length 1..4), through every first-position operator or
+/// only through references and choice alternatives (the part the skipper inlines), entered from rules outside the cycle whose names
+/// sort before / between / after the members, with "skip until" rules `@{ (!x ~ ANY)* }` over members and entries, callers under
+/// repetitions, WHITESPACE / COMMENT on a member; some cycles go through a consuming prefix (legal recursion, the control group)
+fn cyc_grammar(r: &mut Rng, extras: bool) -> String {
+    let mut names: Vec<&str> = CYC_NAMES.to_vec();
+    shuffle(r, &mut names);
+    let l = 1 + r.weighted(&[2, 5, 3, 1]);
+    let (members, rest) = names.split_at(l);
+    let plain = r.chance(1, 2);
+    let legal = r.chance(1, 8);
+    let mods = ["", "", "", "", "_", "@", "$", "!"];
+    let mut rules: Vec<String> = vec![];
+    for i in 0..l {
+        let nxt = members[(i + 1) % l];
+        let body = if legal && i == 0 { format!("{} ~ {}", ["\"t\"", "ANY", "\"t\"+", "'a'..'z'"][r.below(4) as usize], nxt) }
+            else if plain { match r.below(5) { 0 | 1 => nxt.to_string(), 2 => format!("\"t{}\" | {}", i, nxt), 3 => format!("{} | \"t{}\"", nxt, i), _ => format!("\"u{}\" | {} | \"t{}\"", i, nxt, i) } }
+            else { let f = first_pos(r, nxt, extras); if r.chance(1, 4) { first_pos(r, &format!("({})", f), extras) } else { f } };
+        rules.push(format!("{} = {}{{ {} }}", members[i], pk(r, &mods), body));
+    }
+    let mut k = 0;
+    let mut entries: Vec<&str> = vec![];
+    for _ in 0..r.below(3) {
+        let t = *r.pick(members);
+        let body = if plain && r.chance(1, 2) { match r.below(3) { 0 => t.to_string(), 1 => format!("\"s\" | {}", t), _ => format!("{} | \"s\"", t) } }
+            else if r.chance(1, 6) { format!("\"s\" ~ {}", t) } else { first_pos(r, t, extras) };
+        rules.push(format!("{} = {}{{ {} }}", rest[k], pk(r, &mods), body));
+        entries.push(rest[k]);
+        k += 1;
+    }
+    if r.chance(3, 5) {
+        let t = if !entries.is_empty() && r.chance(1, 3) { *r.pick(&entries) } else { *r.pick(members) };
+        let body = match r.below(6) { 0 | 1 => format!("(!{} ~ ANY)*", t), 2 => format!("(!{} ~ ANY)* ~ \"t\"", t), 3 => format!("(!({}) ~ ANY)*", t),
+                                      4 => format!("\"s\" ~ ((!{} ~ ANY)*)?", t), _ => format!("(!{} ~ ANY)+", t) };
+        rules.push(format!("{} = {}{{ {} }}", rest[k], ["@", "@", "@", "@", "$", ""][r.below(6) as usize], body));
+        k += 1;
+    }
+    if r.chance(1, 4) {
+        let t = *r.pick(members);
+        let body = match r.below(4) { 0 => format!("{}*", t), 1 => format!("{}+", t), 2 => format!("({} ~ \"t\")*", t), _ => format!("\"s\" ~ {}{{2,}}", t) };
+        rules.push(format!("{} = {}{{ {} }}", rest[k], pk(r, &mods), body));
+    }
+    if r.chance(1, 10) { rules.push(format!("{} = _{{ {} }}", ["WHITESPACE", "COMMENT"][r.below(2) as usize], r.pick(members))); }
+    shuffle(r, &mut rules);
+    rules.join("\n") + "\n"
+}
+
+fn too_many_dead<W: Write>(out: &Out<W>, limit: u64) -> bool {
+    out.counts.get("class_CRASH").cloned().unwrap_or(0) + out.counts.get("class_TIMEOUT").cloned().unwrap_or(0) >= limit
+}
+
+fn cycles<W: Write>(out: &mut Out<W>, rng: &mut Rng, n: u64, extras: bool) {
+    out.hard_ms = ESC_HARD_MS;
+    for _ in 0..n {
+        let t = cyc_grammar(rng, extras);
+        out.run("cyc", &t);
+        // every dead or killed worker costs seconds: a handful of them is enough evidence
+        if too_many_dead(out, 6) { writeln!(out.w, "#STOPPED\tcyc_stopped_after_dead_workers=1").unwrap(); break; }
+    }
+    out.hard_ms = HARD_MS;
+}
+
+// ------------------------------------------------------------------------------------------------
+// escalated search: starts from texts on which the implementation and the model disagree
+// ------------------------------------------------------------------------------------------------
+const ESC_HARD_MS: u64 = 6000;
+/// the escalated search stops after this many dead / killed workers (each costs seconds) or failing observations
+const ESC_DEAD: u64 = 4;
+const ESC_CONTRACTS: u64 = 12;
+
+struct RInfo { name: String, start: usize, end: usize, refs: Vec<String>, skel: String, skel_refs: Vec<String> }
+
+fn idents(p: pest::iterators::Pair<'_, Rule>, o: &mut Vec<String>) {
+    if p.as_rule() == Rule::identifier { o.push(p.as_str().to_string()); }
+    for c in p.into_inner() { idents(c, o); }
+}
+
+/// First-position skeleton of an expression: the alternatives that can stand at the position where the expression starts, as
+/// string literals and references to defined rules only (a sequence contributes its first term, and the next ones while the
+/// earlier are predicates / optional / starred; operators and parentheses are dropped, every other terminal becomes "x").
+/// The reference graph that the left-recursion check walks is kept; what is left is exactly the sublanguage (reference, choice,
+/// string) through which the optimizer's skipper inlines rules.
+fn skel_expr(p: pest::iterators::Pair<'_, Rule>, defined: &HashSet<String>, o: &mut Vec<String>) {
+    let mut at_first = true;
+    for c in p.into_inner() {
+        match c.as_rule() {
+            Rule::choice_operator => at_first = true,
+            Rule::term => if at_first { at_first = skel_term(c, defined, o); },
+            _ => {}
+        }
+    }
+}
+fn skel_term(p: pest::iterators::Pair<'_, Rule>, defined: &HashSet<String>, o: &mut Vec<String>) -> bool {
+    let mut nullable = false;
+    for c in p.into_inner() {
+        match c.as_rule() {
+            Rule::positive_predicate_operator | Rule::negative_predicate_operator | Rule::optional_operator | Rule::repeat_operator | Rule::repeat_max => nullable = true,
+            Rule::expression => skel_expr(c, defined, o),
+            Rule::_push => for d in c.into_inner() { if d.as_rule() == Rule::expression { skel_expr(d, defined, o); } },
+            Rule::identifier => o.push(if defined.contains(c.as_str()) { c.as_str().to_string() } else { "\"x\"".to_string() }),
+            Rule::string => if c.as_str() == "\"\"" { nullable = true } else { o.push(c.as_str().to_string()) },
+            Rule::insensitive_string | Rule::range | Rule::peek_slice | Rule::_push_literal => o.push("\"x\"".to_string()),
+            _ => {}
+        }
+    }
+    nullable
+}
+
+/// the rules of a text as the meta-parser sees them (name, span, referenced names, skeleton); empty when the text does not parse.
+/// Runs on a large stack: the texts come from the generators, nesting included.
+fn rules_of(text: &str) -> Vec<RInfo> {
+    let t = text.to_string();
+    let h = std::thread::Builder::new().stack_size(STACK).spawn(move || {
+        let mut out = vec![];
+        if let Ok(Ok(pairs)) = catch(|| parser::parse(Rule::grammar_rules, &t)) {
+            let mut defined: HashSet<String> = HashSet::new();
+            for p in pairs.clone() { if p.as_rule() == Rule::grammar_rule { if let Some(i) = p.into_inner().next() { if i.as_rule() == Rule::identifier { defined.insert(i.as_str().to_string()); } } } }
+            for p in pairs {
+                if p.as_rule() != Rule::grammar_rule { continue; }
+                let sp = p.as_span();
+                let mut ids = vec![];
+                idents(p.clone(), &mut ids);
+                if ids.is_empty() { continue; }   // a line_doc
+                let name = ids.remove(0);
+                let mut alts: Vec<String> = vec![];
+                for c in p.into_inner() { if c.as_rule() == Rule::expression { skel_expr(c, &defined, &mut alts); } }
+                let mut seen = HashSet::new();
+                alts.retain(|a| seen.insert(a.clone()));
+                if alts.is_empty() { alts.push("\"x\"".to_string()); }
+                // right-nested: `a | (b | (c | d))` is the form the skipper walks in the rules it inlines (the reader nests `a | b | c` to the
+                // left, and the rule map the skipper looks rules up in is built before the rotater runs)
+                let skel_refs: Vec<String> = alts.iter().filter(|a| defined.contains(a.as_str())).cloned().collect();
+                let mut body = alts.pop().unwrap();
+                while let Some(a) = alts.pop() { body = if body.contains('|') { format!("{} | ({})", a, body) } else { format!("{} | {}", a, body) }; }
+                out.push(RInfo { skel: format!("{} = {{ {} }}", name, body), name, start: sp.start(), end: sp.end(), refs: ids, skel_refs });
+            }
+        }
+        out
+    });
+    h.ok().and_then(|h| h.join().ok()).unwrap_or_default()
+}
+
+/// only the rules that `x` reaches (in the order of the text): a shorter text with the same part of the reference graph
+fn slice_of(text: &str, rules: &[RInfo], x: &str, skeleton: bool) -> String {
+    let mut keep: HashSet<&str> = HashSet::new();
+    let mut todo = vec![x];
+    while let Some(n) = todo.pop() {
+        if !keep.insert(n) { continue; }
+        for r in rules.iter().filter(|r| r.name == n) { for q in if skeleton { &r.skel_refs } else { &r.refs } { todo.push(q.as_str()); } }
+    }
+    let mut s = String::new();
+    for r in rules { if keep.contains(r.name.as_str()) { s.push_str(if skeleton { &r.skel } else { &text[r.start..r.end] }); s.push('\n'); } }
+    s
+}
+
+/// callers that put `x` where a later stage walks through it: first position of every operator, repetitions, predicates
+const CALLERS: [&str; 14] = ["{X} ~ \"x\"", "({X})*", "({X})+", "({X})?", "!{X} ~ ANY", "&{X} ~ ANY", "PUSH({X})", "({X}){2}", "({X}){1,}", "({X}){,2}",
+                             "{X} | \"x\"", "\"x\" | {X}", "\"\" ~ {X}", "(\"x\" ~ {X})*"];
+/// the shapes the optimizer's skipper rewrites (it inlines the rule references below the negative predicate)
+const SKIPS: [&str; 3] = ["(!{X} ~ ANY)*", "(!({X} | \"x\") ~ ANY)*", "(!(\"x\" | {X}) ~ ANY)* ~ \"x\""];
+
+/// Derives texts from one on which implementation and model disagree (`locs`: the error locations they disagree on) and runs the
+/// real front end on them under the time / crash guard of the worker.  For every rule involved (the rules at the locations, what
+/// they refer to, then others): the whole text and the slice that the rule reaches, extended by
+///   * an atomic "skip until" rule over it (the skipper inlines references with no cycle guard of its own),
+///   * a caller with the rule in first position / under every repetition and predicate, named to sort before and after,
+///   * both, and WHITESPACE / COMMENT defined as the rule;
+/// the slice also reduced to its first-position skeleton (references, choices and strings only: what the skipper inlines);
+/// then token-level mutants and byte damage of the text.  Stops after a handful of failing inputs or dead workers.
+fn escalate_one<W: Write>(out: &mut Out<W>, rng: &mut Rng, text: &str, locs: &[(usize, usize)], budget: u64) {
+    let start_n = out.n;
+    let done = |out: &Out<W>| out.n - start_n >= budget || too_many_dead(out, ESC_DEAD) || out.contracts >= ESC_CONTRACTS;
+    out.run("esc-base", text);
+    let rules = rules_of(text);
+    let defined: HashSet<&str> = rules.iter().map(|r| r.name.as_str()).collect();
+    let mut suspects: Vec<String> = vec![];
+    let mut add = |s: &str, suspects: &mut Vec<String>| { if defined.contains(s) && !suspects.iter().any(|x| x == s) { suspects.push(s.to_string()); } };
+    for &(a, b) in locs {
+        if let Some(w) = text.get(a..b) { add(w.trim(), &mut suspects); }
+        for r in &rules { if r.start <= a && b <= r.end { add(&r.name, &mut suspects); } }
+    }
+    for i in 0..suspects.len() { let si = suspects[i].clone(); for r in rules.iter().filter(|r| r.name == si) { for q in &r.refs { add(q, &mut suspects); } } }
+    let mut others: Vec<&str> = rules.iter().map(|r| r.name.as_str()).collect();
+    shuffle(rng, &mut others);
+    for o in others { if suspects.len() >= 10 { break; } add(o, &mut suspects); }
+    let fresh = |base: &str| -> String { let mut i = 0; loop { let n = format!("{}{}", base, i); if !defined.contains(n.as_str()) { return n; } i += 1; } };
+    let (fb, fa) = (fresh("A0q"), fresh("zz9q"));
+    // the rules at the disagreeing locations first; for each the slice, its skeleton, then the whole text
+    for x in &suspects {
+        for (kind, whole, skeleton) in [("esc-slice", false, false), ("esc-skel", false, true), ("esc-whole", true, false)] {
+            if done(out) { return; }
+            let base = if whole { let mut t = text.to_string(); if !t.ends_with('\n') { t.push('\n'); } t } else { slice_of(text, &rules, x, skeleton) };
+            if !whole { out.run(kind, &base); }
+            for s in SKIPS {
+                let body = s.replace("{X}", x);
+                out.run(kind, &format!("{}{} = @{{ {} }}\n", base, fb, body));
+                out.run(kind, &format!("{}{} = @{{ {} }}\n", base, fa, body));
+                if done(out) { return; }
+            }
+            for c in CALLERS {
+                let body = c.replace("{X}", x);
+                out.run(kind, &format!("{}{} = {{ {} }}\n", base, fb, body));
+                out.run(kind, &format!("{}{} = {{ {} }}\n", base, fa, body));
+                if done(out) { return; }
+            }
+            for (c, m) in [(CALLERS[0], ""), (CALLERS[1], "@"), (CALLERS[10], "$"), (CALLERS[2], "_")] {
+                out.run(kind, &format!("{}{} = {}{{ {} }}\n{} = @{{ (!{} ~ ANY)* }}\n", base, fb, m, c.replace("{X}", x), fa, x));
+                out.run(kind, &format!("{}{} = @{{ (!{} ~ ANY)* }}\n{} = {}{{ {} }}\n", base, fb, x, fa, m, c.replace("{X}", x)));
+                if done(out) { return; }
+            }
+            for ws in ["WHITESPACE", "COMMENT"] {
+                if !defined.contains(ws) { out.run(kind, &format!("{}{} = _{{ {} }}\n{} = {{ \"x\" ~ \"y\" }}\n", base, ws, x, fb)); }
+            }
+        }
+    }
+    if done(out) { return; }
+    mutants(out, "esc-mut", text, rng, 80, false);
+    for _ in 0..40 { let d = damage(text, rng); out.run("esc-mut", &d); if done(out) { return; } }
+}
+
+/// escalate <file> <seed> <budget per text>: one disagreeing case per line, `<escaped text> \t <a-b,a-b,...>`
+fn escalate<W: Write>(out: &mut Out<W>, path: &str, seed: u64, budget: u64) {
+    let content = std::fs::read_to_string(path).unwrap_or_default();
+    let mut rng = Rng::new(seed);
+    out.hard_ms = ESC_HARD_MS;
+    let mut from = 0;
+    for line in content.lines() {
+        let mut f = line.split('\t');
+        let text = unesc(f.next().unwrap_or(""));
+        let locs: Vec<(usize, usize)> = f.next().unwrap_or("").split(',').filter_map(|s| { let mut p = s.split('-'); Some((p.next()?.parse().ok()?, p.next()?.parse().ok()?)) }).collect();
+        from += 1;
+        escalate_one(out, &mut rng, &text, &locs, budget);
+        if too_many_dead(out, ESC_DEAD) || out.contracts >= ESC_CONTRACTS { break; }
+    }
+    out.hard_ms = HARD_MS;
+    writeln!(out.w, "#ESCALATE\tescalated_from={}\tescalated_stopped_early={}", from, if too_many_dead(out, ESC_DEAD) || out.contracts >= ESC_CONTRACTS { 1 } else { 0 }).unwrap();
+}
+
 /// the witnesses of the defect classes: which of them still reproduce on this tree
 const WITNESSES: [(&str, &str); 7] = [
     ("fix_escape_str", "a = { \"\\u{D800}\" }"),
@@ -607,7 +880,7 @@ fn main() {
                 out.run("ship", text);
                 // the model side costs O(length * tokens): fewer cases for the long files (at least a handful each)
                 let scale = |n: u64| -> u64 { if text.len() <= 1500 { n } else { (n * 1500 / text.len() as u64).max(6) } };
-                mutants(&mut out, text, &mut rng, scale(nm), all && text.len() < 1500);
+                mutants(&mut out, "mut", text, &mut rng, scale(nm), all && text.len() < 1500);
                 prefixes(&mut out, text, &mut rng, scale(np));
                 for _ in 0..scale(nm / 4) { let d = damage(text, &mut rng); out.run("dmg", &d); }
             }
@@ -619,7 +892,11 @@ fn main() {
         // expo <from> <to> <kind>...
         "expo" => { let ks: Vec<String> = std::env::args().skip(4).collect(); let kr: Vec<&str> = ks.iter().map(|x| x.as_str()).collect(); expo(&mut out, &kr, arg_u64(2, 10) as usize, arg_u64(3, 24) as usize); }
         "scale" => { let ds: Vec<usize> = std::env::args().skip(2).filter_map(|x| x.parse().ok()).collect(); scale(&mut out, &ds); }
-        _ => { eprintln!("usage: c09 probe|one|file|fixed|ship|rnd|gen|deep|expo ..."); }
+        // cyc <seed> <n> [extras]: grammars around rule-reference cycles
+        "cyc" => { let mut rng = Rng::new(arg_u64(2, 1)); cycles(&mut out, &mut rng, arg_u64(3, 300), arg(4) == "extras"); }
+        // escalate <file> <seed> <budget per text>: the search that starts from disagreeing cases
+        "escalate" => { quiet_panics(); escalate(&mut out, &arg(2), arg_u64(3, 1), arg_u64(4, 400)); }
+        _ => { eprintln!("usage: c09 probe|one|file|fixed|ship|rnd|gen|cyc|deep|expo|scale|escalate ..."); }
     }
     out.summary();
 }
